@@ -21,7 +21,8 @@ func mkSlice(vals []int, extra int) (s []int, backing []int) {
 
 // describe renders "<contents> <tail> <same/new>" for a result slice relative to the original backing array.
 func describe(res []int, backing []int) string {
-	same := false
+	// a slice of capacity 0 carries no observable pointer: it counts as still living in the original backing array
+	same := cap(res) == 0
 	if cap(res) > 0 && len(backing) > 0 {
 		r := res[:1]
 		same = &r[0] == &backing[0]
@@ -90,7 +91,7 @@ func (c12) step(t []string) string {
 		s, b := mkSlice(parseInts(t[1]), atoi(t[2]))
 		r := slices.Grow(s, atoi(t[3]))
 		same := "new"
-		if cap(r) > 0 && &r[:1][0] == &b[0] {
+		if cap(r) == 0 || &r[:1][0] == &b[0] {
 			same = "same"
 		}
 		return fmtInts(r) + " " + same
